@@ -776,3 +776,696 @@ Proof.
     + intros th0 code0 j0 x Hin1 Hj1 Hp. destruct (step_code_keep _ _ _ _ _ _ _ HI Hs Hin1 Hj1) as [(code'&A&B)|(room&rest&Hl&_)]; [|discriminate].
       exists th0, code', j0. repeat split; try assumption. congruence.
 Qed.
+
+(* ---------------------------------------------------------------- frame lemmas for one request *)
+
+Section Frame.
+  Variables (cf : config) (k id : Z).
+  Notation K0 := (k, 0, id).
+
+  Lemma unseen_wout : forall st, WInv st -> ~ In (k, id) (seen st) -> wout k id st = [].
+  Proof.
+    intros st HW Hns. unfold wout.
+    assert (G : forall log, (forall k0 f, In (k0, f) log -> kind_of f <> None -> In (k0, f_id f) (seen st)) -> wire_of k id log = []).
+    { induction log as [|[k0 f] r IH]; intro Hall; cbn; [reflexivity|].
+      rewrite IH by (intros k1 f1 Hin; apply Hall; right; exact Hin). cbn.
+      destruct ((k0 =? k) && (f_id f =? id)) eqn:E; [|reflexivity].
+      apply andb_true_iff in E. destruct E as [E1 E2]. apply Z.eqb_eq in E1. apply Z.eqb_eq in E2. subst.
+      destruct (kind_of f) eqn:Ek; [|reflexivity]. exfalso. apply Hns. apply (Hall k f (or_introl eq_refl)). congruence. }
+    apply G. apply (w_sent _ HW).
+  Qed.
+
+  Lemma unseen_unblocked : forall st th code j, Inv st -> WInv st -> ~ In (k, id) (seen st) ->
+    In (th, code) (threads st) -> In j code -> blocked k id j = false.
+  Proof.
+    intros st th code j HI HW Hns Hin Hj. destruct (blocked k id j) eqn:Eb; [|reflexivity]. exfalso. apply Hns.
+    pose proof (w_code _ HW _ _ _ Hin Hj) as Hw.
+    destruct (inv_code _ HI _ _ Hin) as [Hf _]. rewrite Forall_forall in Hf. pose proof (Hf _ Hj) as Hiok.
+    assert (Hadm : forall k' f, adm_kf j = Some (k', f) -> (k' =? k) && (f_id f =? id) = true -> In (k, id) (seen st)).
+    { intros k' f Ha Hb. destruct (iok_adm _ _ _ _ _ _ _ Ha Hiok) as [_ (Hs&_)]. apply andb_true_iff in Hb. destruct Hb as [E1 E2].
+      apply Z.eqb_eq in E1. apply Z.eqb_eq in E2. subst. exact Hs. }
+    destruct j; cbn in Eb; try discriminate; try (eapply Hadm; [reflexivity|exact Eb]).
+    - apply andb_true_iff in Eb. destruct Eb as [E1 E2]. apply Z.eqb_eq in E1. apply Z.eqb_eq in E2. subst. exact Hw.
+    - destruct g as [[it s]|]; [|discriminate]. rewrite !andb_true_iff in Eb. destruct Eb as [[[[E1 E2] E3] _] _].
+      apply Z.eqb_eq in E1. apply Z.eqb_eq in E2. subst. cbn in Hw. destruct Hw as (A&B&_). apply B.
+      unfold is_wire in E3. destruct (kind_of (r_f r)) eqn:Ek; [|discriminate].
+      rewrite (kind_of_response (r_f r)) in A by congruence. inversion A. reflexivity.
+    - rewrite !andb_true_iff in Eb. destruct Eb as [[E1 E2] E3].
+      apply Z.eqb_eq in E1. apply Z.eqb_eq in E2. subst. cbn in Hw. destruct Hw as (A&B&_). apply B.
+      unfold is_wire in E3. destruct (kind_of (r_f r)) eqn:Ek; [|discriminate].
+      rewrite (kind_of_response (r_f r)) in A by congruence. inversion A. reflexivity.
+  Qed.
+
+  (* the log of (k, id) changes only when a blocked instruction of (k, id) is executed *)
+  Lemma step_wout : forall st l st', step cf st l = Some st' ->
+    wout k id st' = wout k id st \/
+    (exists th room i rest, l = LStep th room /\ lookup tid_eqb th (threads st) = Some (i :: rest) /\ blocked k id i = true /\
+       ((exists ec, i = ISendErr k id ec /\ wout k id st' = wout k id st ++ [Err]) \/
+        (exists r rk x, i = IRcvEnq r rk /\ room = true /\ kind_of (r_f r) = Some x /\ wout k id st' = wout k id st ++ [x]))).
+  Proof.
+    intros st l st' H. unfold step in H. destruct (negb (panicked st =? 0)); [discriminate|].
+    destruct l as [k0 f e|th room|tm|t0|k0|k0|k0].
+    - left. destruct (lookup tid_eqb (TR k0) (threads st)); [discriminate|].
+      destruct (relayRoute (f_mt f) (cf_cancel cf) =? 1); [|inversion H; subst; reflexivity].
+      destruct (f_mt f =? c_messageTypeCallReq); inversion H; subst; reflexivity.
+    - destruct (lookup tid_eqb th (threads st)) as [[|i rest]|] eqn:El; try discriminate.
+      destruct (exec cf st i room) as [st1 pushed] eqn:E. inversion H. subst st'. clear H.
+      unfold wout. cbn [set_thread set_threads sent].
+      destruct (exec_sent_w _ _ _ _ _ _ E) as [_ [Hs|[(k1&id1&code1&Hi&Hs)|(r&rk&Hi&Hs)]]]; rewrite Hs.
+      + left. reflexivity.
+      + subst i. destruct ((k1 =? k) && (id1 =? id)) eqn:Eb.
+        * right. apply andb_true_iff in Eb. destruct Eb as [E1 E2]. apply Z.eqb_eq in E1. apply Z.eqb_eq in E2. subst k1 id1.
+          exists th, room, (ISendErr k id code1), rest. split; [reflexivity|]. split; [exact El|]. split; [cbn; rewrite !Z.eqb_refl; reflexivity|].
+          left. exists code1. split; [reflexivity|]. rewrite wire_of_cons. cbn [f_id]. rewrite !Z.eqb_refl. reflexivity.
+        * left. apply wire_of_cons_other. cbn [f_id]. rewrite Eb. reflexivity.
+      + subst i. destruct ((r_d r =? k) && (f_id (r_f r) =? id) && is_wire (r_f r)) eqn:Eb.
+        * right. exists th, room, (IRcvEnq r rk), rest. split; [reflexivity|]. split; [exact El|]. split; [exact Eb|]. right.
+          apply andb_true_iff in Eb. destruct Eb as [Eb Ew]. unfold is_wire in Ew. destruct (kind_of (r_f r)) as [x|] eqn:Ek; [|discriminate].
+          exists r, rk, x. split; [reflexivity|]. split.
+          { cbn [exec] in E. destruct room; [reflexivity|]. inversion E. subst. exfalso.
+            apply (f_equal (@length _)) in Hs. cbn in Hs. lia. }
+          split; [exact Ek|]. rewrite wire_of_cons, Eb, Ek. reflexivity.
+        * left. apply wire_of_cons_other. exact Eb.
+    - left. destruct (zlookup tm (timers st)) as [x|]; [|discriminate].
+      destruct (tm_armed x && match lookup tid_eqb (TT tm) (threads st) with None => true | Some _ => false end); [|discriminate].
+      inversion H. subst. reflexivity.
+    - left. destruct (mem_key t0 (gcs st)); [|discriminate]. inversion H. subst.
+      destruct (items_delete (set_gcs st (remove_one t0 (gcs st))) t0) as [st' g] eqn:E. cbn [fst].
+      apply items_delete_spec in E. cbn [set_gcs sent] in E. destruct E as (_&_&_&_&A&_). unfold wout. rewrite A. reflexivity.
+    - left. destruct (c_state (get_conn st k0) =? c_connectionActive); [|discriminate]. inversion H. subst. reflexivity.
+    - left. inversion H. subst. reflexivity.
+    - left. match type of H with (if ?b then _ else _) = _ => destruct b end; [|discriminate]. inversion H. subst. reflexivity.
+  Qed.
+End Frame.
+
+Section Phases.
+  Variables (cf : config) (k id : Z).
+  Notation K0 := (k, 0, id).
+
+  Lemma nb_LStep : forall st th i rest room st1 pushed, Inv st -> lookup tid_eqb th (threads st) = Some (i :: rest) ->
+    exec cf st i room = (st1, pushed) ->
+    nb k id (set_thread st1 th (pushed ++ rest)) = nb k id st - bl k id i + csum (bl k id) pushed.
+  Proof.
+    intros st th i rest room st1 pushed HI El E. unfold nb. pose proof (exec_threads _ _ _ _ _ _ E) as Hth.
+    rewrite tsum_set_thread by (rewrite Hth; apply (inv_threads_nd _ HI)). rewrite Hth, El, csum_app. cbn [csum]. lia.
+  Qed.
+
+  Lemma nb_other : forall st l st', Inv st -> step cf st l = Some st' -> (forall th room, l <> LStep th room) ->
+    nb k id st' = nb k id st +
+      match l with
+      | LArrive k0 f e => if (relayRoute (f_mt f) (cf_cancel cf) =? 1) && (f_mt f =? c_messageTypeCallReq) then bl k id (IStart k0 f e) else 0
+      | _ => 0
+      end.
+  Proof.
+    intros st l st' HI H Hn. unfold step in H. destruct (negb (panicked st =? 0)); [discriminate|].
+    destruct l as [k0 f e|th room|tm|t0|k0|k0|k0].
+    - destruct (lookup tid_eqb (TR k0) (threads st)) eqn:Eidle; [discriminate|].
+      destruct (relayRoute (f_mt f) (cf_cancel cf) =? 1); [|inversion H; subst; cbn; lia].
+      destruct (f_mt f =? c_messageTypeCallReq); inversion H; subst; clear H; unfold nb; cbn [andb];
+        rewrite tsum_set_thread by apply (inv_threads_nd _ HI); cbn [set_seen threads]; rewrite Eidle; cbn [csum]; [lia|]; unfold bl; cbn; lia.
+    - exfalso. eapply Hn. reflexivity.
+    - destruct (zlookup tm (timers st)) as [x|]; [|discriminate].
+      destruct (tm_armed x && match lookup tid_eqb (TT tm) (threads st) with None => true | Some _ => false end) eqn:Eb; [|discriminate].
+      inversion H. subst. clear H. unfold nb. rewrite tsum_set_thread by apply (inv_threads_nd _ HI). cbn [set_timers threads].
+      apply andb_true_iff in Eb. destruct Eb as [_ Eb]. destruct (lookup tid_eqb (TT tm) (threads st)); [discriminate|]. cbn. lia.
+    - destruct (mem_key t0 (gcs st)); [|discriminate]. inversion H. subst.
+      destruct (items_delete (set_gcs st (remove_one t0 (gcs st))) t0) as [st' g] eqn:E. cbn [fst].
+      apply items_delete_spec in E. cbn [set_gcs threads] in E. destruct E as (_&_&A&_). unfold nb. rewrite A. lia.
+    - destruct (c_state (get_conn st k0) =? c_connectionActive); [|discriminate]. inversion H. subst. unfold nb. cbn [put_conn set_conns threads]. lia.
+    - inversion H. subst. unfold nb. cbn [put_conn set_conns threads]. lia.
+    - match type of H with (if ?b then _ else _) = _ => destruct b end; [|discriminate]. inversion H. subst. unfold nb. cbn [put_conn set_conns threads]. lia.
+  Qed.
+
+  Inductive phase (st : state) (h : held) (arr : list (Z * frame)) : Prop :=
+  | PhUnseen : ~ In (k, id) (seen st) -> phase st h arr
+  | PhSettled : settled st k id -> (exists q, qout k id st = Some q) -> phase st h arr
+  | PhAdm : forall th code i f, In (th, code) (threads st) -> In i code -> adm_kf i = Some (k, f) -> f_id f = id ->
+      nb k id st = 1 -> wout k id st = [] ->
+      (forall e c d did, i = IAddOrig k f e c d did -> dead st d did \/ synced st arr W0 d did) -> phase st h arr
+  | PhErr : forall th code ec q, In (th, code) (threads st) -> In (ISendErr k id ec) code -> nb k id st = 1 ->
+      k0_notlive k id st -> qout k id st = Some q -> q <> WEnd -> phase st h arr
+  | PhLive : forall it0 q, klookup K0 (items st) = Some it0 -> it_tomb it0 = false -> nb k id st = 0 ->
+      qout k id st = Some q -> q <> WEnd ->
+      (dead st (it_dest it0) (it_remap it0) \/ doomed k id st h (it_call it0) \/ synced st arr q (it_dest it0) (it_remap it0)) -> phase st h arr
+  | PhFwd : forall th code j r it0 q x q', In (th, code) (threads st) -> In j code -> committed k id j = Some r -> nb k id st = 1 ->
+      klookup K0 (items st) = Some it0 -> it_tomb it0 = false -> In (th, it_call it0) h ->
+      r_own r = (it_dest it0, 1, it_remap it0) -> qout k id st = Some q -> kind_of (r_f r) = Some x -> wire_step q x = Some q' ->
+      qarr arr (it_dest it0) (it_remap it0) = Some q' -> phase st h arr
+  | PhWindow : forall it0 th R, klookup K0 (items st) = Some it0 -> it_tomb it0 = false -> qout k id st = Some WEnd -> nb k id st = 0 ->
+      lookup tid_eqb th (threads st) = Some (IDelete K0 :: R) -> In (th, it_call it0) h -> phase st h arr.
+
+  Lemma phase_q : forall st h arr, WInv st -> phase st h arr -> exists q, qout k id st = Some q.
+  Proof.
+    intros st h arr HW [Hu|_ Hq|th code i f _ _ _ _ _ Hw _|th code ec q _ _ _ _ Hq _|it0 q _ _ _ Hq _ _|th code j r it0 q x q' _ _ _ _ _ _ _ _ Hq _ _ _|it0 th R _ _ Hq _ _ _].
+    - exists W0. unfold qout. rewrite (unseen_wout k id st HW Hu). reflexivity.
+    - exact Hq.
+    - exists W0. unfold qout. rewrite Hw. reflexivity.
+    - exists q. exact Hq.
+    - exists q. exact Hq.
+    - exists q. exact Hq.
+    - exists WEnd. exact Hq.
+  Qed.
+End Phases.
+
+(* ---------------------------------------------------------------- helpers for the phase transitions *)
+
+Section Helpers.
+  Variables (cf : config) (k id : Z).
+  Notation K0 := (k, 0, id).
+
+  Lemma csum_pos_in : forall l, 0 < csum (bl k id) l -> exists j, In j l /\ blocked k id j = true.
+  Proof.
+    induction l as [|a r IH]; cbn; intro H; [lia|]. destruct (blocked k id a) eqn:Eb.
+    - exists a. split; [left; reflexivity|exact Eb].
+    - unfold bl at 1 in H. rewrite Eb in H. cbn in H. destruct (IH H) as (j&Hj&Hb). exists j. split; [right; exact Hj|exact Hb].
+  Qed.
+
+  Lemma csum_zero_none : forall l, (forall j, In j l -> blocked k id j = false) -> csum (bl k id) l = 0.
+  Proof.
+    induction l as [|a r IH]; intro H; cbn; [reflexivity|]. unfold bl at 1. rewrite (H a (or_introl eq_refl)). cbn.
+    apply IH. intros j Hj. apply H. right. exact Hj.
+  Qed.
+
+  Lemma adm_pushes : forall st i room st1 pushed f j, adm_kf i = Some (k, f) -> exec cf st i room = (st1, pushed) ->
+    In j pushed -> blocked k id j = true -> adm_kf j = Some (k, f) \/ exists ec, j = ISendErr k (f_id f) ec.
+  Proof.
+    intros st i room st1 pushed f j Ha H Hj Hb. destruct i; cbn in Ha; try discriminate; inversion Ha; subst; cbn [exec] in H.
+    - destruct (e_start e =? 0); inversion H; subst; clear H; in_cases Hj; try discriminate; try (left; reflexivity); right; eexists; reflexivity.
+    - destruct (c_state (get_conn st k) =? c_connectionActive); inversion H; subst; clear H; in_cases Hj; try discriminate; try (left; reflexivity); right; eexists; reflexivity.
+    - destruct (klookup (k, 0, f_id f) (items st)); [|destruct (e_dest e =? -1); [|destruct (e_dest e <? 0)]];
+        inversion H; subst; clear H; in_cases Hj; try discriminate; try (left; reflexivity); right; eexists; reflexivity.
+    - destruct (c_state (get_conn st d) =? c_connectionActive); inversion H; subst; clear H; in_cases Hj; try discriminate; try (left; reflexivity); right; eexists; reflexivity.
+    - unfold timer_new in H. cbn [fst snd] in H. inversion H; subst. destruct Hj as [<-|[]]. left. reflexivity.
+    - unfold timer_new in H. cbn [fst snd] in H. inversion H; subst; clear H. in_cases Hj; discriminate.
+  Qed.
+
+  Lemma step_seen : forall st l st', step cf st l = Some st' ->
+    seen st' = seen st \/ (exists k0 f e, l = LArrive k0 f e /\ seen st' = (k0, f_id f) :: seen st /\ (f_mt f =? c_messageTypeCallReq) = true).
+  Proof.
+    intros st l st' H. unfold step in H. destruct (negb (panicked st =? 0)); [discriminate|].
+    destruct l as [k0 f e|th room|tm|t0|k0|k0|k0].
+    - destruct (lookup tid_eqb (TR k0) (threads st)); [discriminate|].
+      destruct (relayRoute (f_mt f) (cf_cancel cf) =? 1); [|inversion H; subst; left; reflexivity].
+      destruct (f_mt f =? c_messageTypeCallReq) eqn:Emt; inversion H; subst; [|left; reflexivity].
+      right. exists k0, f, e. repeat split. exact Emt.
+    - left. destruct (lookup tid_eqb th (threads st)) as [[|i rest]|]; try discriminate.
+      destruct (exec cf st i room) as [st1 pushed] eqn:E. inversion H. subst. destruct (exec_sent_w _ _ _ _ _ _ E) as [A _]. exact A.
+    - left. destruct (zlookup tm (timers st)) as [x|]; [|discriminate].
+      destruct (tm_armed x && match lookup tid_eqb (TT tm) (threads st) with None => true | Some _ => false end); [|discriminate].
+      inversion H. subst. reflexivity.
+    - left. destruct (mem_key t0 (gcs st)); [|discriminate]. inversion H. subst.
+      destruct (items_delete (set_gcs st (remove_one t0 (gcs st))) t0) as [st' g] eqn:E. cbn [fst].
+      apply items_delete_spec in E. cbn [set_gcs seen] in E. destruct E as (_&_&_&_&_&A&_). exact A.
+    - left. destruct (c_state (get_conn st k0) =? c_connectionActive); [|discriminate]. inversion H. subst. reflexivity.
+    - left. inversion H. subst. reflexivity.
+    - left. match type of H with (if ?b then _ else _) = _ => destruct b end; [|discriminate]. inversion H. subst. reflexivity.
+  Qed.
+
+  Lemma step_lookup_other : forall st l st' th2 c, step cf st l = Some st' -> (forall room, l <> LStep th2 room) ->
+    lookup tid_eqb th2 (threads st) = Some c -> lookup tid_eqb th2 (threads st') = Some c.
+  Proof.
+    intros st l st' th2 c H Hn Hl. unfold step in H. destruct (negb (panicked st =? 0)); [discriminate|].
+    destruct l as [k0 f e|th room|tm|t0|k0|k0|k0].
+    - destruct (lookup tid_eqb (TR k0) (threads st)) eqn:Eidle; [discriminate|].
+      assert (Hne : th2 <> TR k0) by (intro; subst; congruence).
+      destruct (relayRoute (f_mt f) (cf_cancel cf) =? 1); [|inversion H; subst; exact Hl].
+      destruct (f_mt f =? c_messageTypeCallReq); inversion H; subst; rewrite tlookup_set_thread_other by exact Hne; exact Hl.
+    - destruct (lookup tid_eqb th (threads st)) as [[|i rest]|]; try discriminate.
+      destruct (exec cf st i room) as [st1 pushed] eqn:E. inversion H. subst.
+      assert (Hne : th2 <> th) by (intro; subst; eapply Hn; reflexivity).
+      rewrite tlookup_set_thread_other by exact Hne. rewrite (exec_threads _ _ _ _ _ _ E). exact Hl.
+    - destruct (zlookup tm (timers st)) as [x|]; [|discriminate].
+      destruct (tm_armed x && match lookup tid_eqb (TT tm) (threads st) with None => true | Some _ => false end) eqn:Eb; [|discriminate].
+      inversion H. subst. assert (Hne : th2 <> TT tm).
+      { intro. subst. apply andb_true_iff in Eb. destruct Eb as [_ Eb]. rewrite Hl in Eb. discriminate. }
+      rewrite tlookup_set_thread_other by exact Hne. exact Hl.
+    - destruct (mem_key t0 (gcs st)); [|discriminate]. inversion H. subst.
+      destruct (items_delete (set_gcs st (remove_one t0 (gcs st))) t0) as [st' g] eqn:E. cbn [fst].
+      apply items_delete_spec in E. cbn [set_gcs threads] in E. destruct E as (_&_&A&_). rewrite A. exact Hl.
+    - destruct (c_state (get_conn st k0) =? c_connectionActive); [|discriminate]. inversion H. subst. exact Hl.
+    - inversion H. subst. exact Hl.
+    - match type of H with (if ?b then _ else _) = _ => destruct b end; [|discriminate]. inversion H. subst. exact Hl.
+  Qed.
+
+  Lemma get_wins2 : forall st h th i rest t st2 it, Inv st -> TInv st -> HInv st h -> FInv st h ->
+    lookup tid_eqb th (threads st) = Some (i :: rest) -> is_trun i = false -> is_tent i = false ->
+    (forall c, In c (live_call st t) -> others_hold h th c = false) ->
+    items_get st t true = (st2, Some (it, false)) -> it_tomb it = false -> False.
+  Proof.
+    intros st h th i rest t st2 it HI HT HH HF El Hg1 Hg2 Hto E Hlive.
+    destruct (items_get_tspec _ _ _ _ _ HT E) as (_&_&_&Hm).
+    destruct (klookup t (items st)) as [it0|] eqn:Hl; [|destruct Hm as [Hm _]; discriminate].
+    destruct Hm as (x&Hx&Hk&[(Hs&_)|[(_&Hgg&_)|[(_&Hgg&_)|(_&Hgg&Hns&Hna&_)]]]); try discriminate.
+    inversion Hgg. subst it0.
+    pose proof (lookup_in key_eqb key_eqb_ok _ _ _ Hl) as Hin.
+    destruct (t_oblig _ HT _ _ Hin Hlive) as (y&Hy&[A|[(code&Hc&Hp)|(S&_)]]); rewrite Hx in Hy; inversion Hy; subst y.
+    - congruence.
+    - pose proof (f_fired _ _ HF _ _ _ Hc Hp Hin Hlive) as Hh.
+      assert (Hth : TT (it_tm it) = th).
+      { eapply others_hold_false; [|exact Hh]. apply Hto. apply live_call_in; assumption. }
+      subst th. pose proof (in_lookup tid_eqb tid_eqb_ok _ _ _ (inv_threads_nd _ HI) Hc) as Hl2. rewrite El in Hl2. inversion Hl2. subst code.
+      destruct Hp as [Hp|(o&r'&Hp)]; inversion Hp; subst i; discriminate.
+    - congruence.
+  Qed.
+
+  Lemma settled_of : forall st, In (k, id) (seen st) -> k0_notlive k id st -> nb k id st = 0 -> settled st k id.
+  Proof.
+    intros st Hs Hn Hz. split; [exact Hs|]. split; [exact Hn|]. intros th code j Hin Hj. eapply nb_zero_none; eassumption.
+  Qed.
+
+  (* acting on a call another goroutine holds is excluded *)
+  Lemma touch_excl : forall st h th2 room i2 rest c th, HInv st h -> no_overlap_step st h (LStep th2 room) = true ->
+    lookup tid_eqb th2 (threads st) = Some (i2 :: rest) -> In c (touches_i st i2) -> In (th, c) h -> th = th2.
+  Proof.
+    intros st h th2 room i2 rest c th HH Hno El Hc Hh.
+    assert (Hhead : head_of st th2 = Some i2) by (unfold head_of; rewrite El; reflexivity).
+    unfold no_overlap_step in Hno. cbn [actor touches] in Hno. rewrite Hhead in Hno. rewrite forallb_forall in Hno.
+    specialize (Hno _ Hc). apply negb_true_iff in Hno. eapply others_hold_false; eassumption.
+  Qed.
+
+  Lemma lstep_or_not : forall l : label, (exists th room, l = LStep th room) \/ (forall th room, l <> LStep th room).
+  Proof. intro l. destruct l; try (right; intros; discriminate). left. eexists. eexists. reflexivity. Qed.
+
+  Lemma arrive_delta_zero : forall st l, fresh_label st l = true -> In (k, id) (seen st) ->
+    match l with
+    | LArrive k0 f e => if (relayRoute (f_mt f) (cf_cancel cf) =? 1) && (f_mt f =? c_messageTypeCallReq) then bl k id (IStart k0 f e) else 0
+    | _ => 0
+    end = 0.
+  Proof.
+    intros st l Hfresh Hseen. destruct l as [k0 f e| | | | | |]; try reflexivity.
+    destruct ((relayRoute (f_mt f) (cf_cancel cf) =? 1) && (f_mt f =? c_messageTypeCallReq)) eqn:Eb; [|reflexivity].
+    apply andb_true_iff in Eb. destruct Eb as [_ Emt]. unfold bl. cbn.
+    destruct ((k0 =? k) && (f_id f =? id)) eqn:Ek; [|reflexivity]. exfalso.
+    apply andb_true_iff in Ek. destruct Ek as [E1 E2]. apply Z.eqb_eq in E1. apply Z.eqb_eq in E2. subst k0.
+    cbn [fresh_label] in Hfresh. rewrite Emt in Hfresh. cbn [andb] in Hfresh. apply negb_true_iff in Hfresh.
+    assert (Hex : existsb (fun p => (fst p =? k) && (snd p =? f_id f)) (seen st) = true).
+    { apply existsb_exists. exists (k, id). split; [exact Hseen|]. cbn. rewrite E2, !Z.eqb_refl. reflexivity. }
+    congruence.
+  Qed.
+
+  Lemma qout_snoc : forall st st' q x, qout k id st = Some q -> wout k id st' = wout k id st ++ [x] -> qout k id st' = wire_step q x.
+  Proof. intros st st' q x Hq Hw. unfold qout in *. rewrite Hw, wire_run_snoc, Hq. reflexivity. Qed.
+
+  Lemma qout_same : forall st st', wout k id st' = wout k id st -> qout k id st' = qout k id st.
+  Proof. intros st st' Hw. unfold qout. rewrite Hw. reflexivity. Qed.
+End Helpers.
+
+(* ---------------------------------------------------------------- one step of one request *)
+
+Section Trans.
+  Variables (cf : config) (k id : Z).
+  Notation K0 := (k, 0, id).
+  Variables (st st' : state) (h : held) (arr : list (Z * frame)) (l : label).
+  Hypothesis HA : AllInv st h.
+  Hypothesis Hfresh : fresh_label st l = true.
+  Hypothesis Hno : no_overlap_step st h l = true.
+  Hypothesis Hcau : causal_step st l = true.
+  Hypothesis Hs : step cf st l = Some st'.
+  Hypothesis Hok : arr_ok (arr_step arr l).
+  Hypothesis Harr : forall d f, In (d, f) arr -> kind_of f <> None -> f_id f < c_nextid (getc (conns st) d).
+
+  Let h' := held_next st l st' h.
+  Let arr' := arr_step arr l.
+
+  Lemma HA' : AllInv st' h'.
+  Proof. eapply step_all; eassumption. Qed.
+
+  Let HI := a_inv _ _ HA.
+  Let HW := a_winv _ _ HA.
+  Let HH := a_hinv _ _ HA.
+  Let HF := a_finv _ _ HA.
+  Let HP := a_tpair _ _ HA.
+  Let HT := a_tinv _ _ HA.
+  Let HS := a_shape _ _ HA.
+
+  (* the executed instruction, when the label is a goroutine step *)
+  Lemma lstep_inv : forall th room, l = LStep th room ->
+    exists i rest st1 pushed, lookup tid_eqb th (threads st) = Some (i :: rest) /\ exec cf st i room = (st1, pushed) /\
+      st' = set_thread st1 th (pushed ++ rest).
+  Proof.
+    intros th room ->. pose proof Hs as H0. unfold step in H0. destruct (negb (panicked st =? 0)); [discriminate|].
+    destruct (lookup tid_eqb th (threads st)) as [[|i rest]|]; try discriminate.
+    destruct (exec cf st i room) as [st1 pushed] eqn:E. inversion H0. exists i, rest, st1, pushed.
+    split; [reflexivity|]. split; [exact E|reflexivity].
+  Qed.
+
+  (* a blocked instruction pushed by an instruction that is not blocked: the step acts on the live K0 *)
+  Lemma new_blocked_touch : forall th room i rest st1 pushed j, l = LStep th room ->
+    lookup tid_eqb th (threads st) = Some (i :: rest) -> exec cf st i room = (st1, pushed) ->
+    blocked k id i = false -> In j pushed -> blocked k id j = true ->
+    exists it0, klookup K0 (items st) = Some it0 /\ it_tomb it0 = false /\ In (it_call it0) (touches_i st i) /\
+      ((exists r s, i = IRcvGet r /\ rcv_key r = K0 /\ j = IRcvChk r K0 (Some (it0, s))) \/ (exists s ec, i = IEntomb K0 s /\ j = ISendErr k id ec)).
+  Proof.
+    intros th room i rest st1 pushed j Hl El E Hbi Hj Hbj.
+    pose proof (lookup_in tid_eqb tid_eqb_ok _ _ _ El) as Hin0.
+    destruct (pushed_blocked k id cf st th i rest room st1 pushed j HI Hin0 E Hj Hbj) as [[Hb _]|[(r&it&s&Hi&Hjj&Hlk&Hlive)|(s&it0&ec&Hi&Hlk&Hlive&Hjj)]].
+    - congruence.
+    - subst i j. cbn in Hbj. rewrite !andb_true_iff in Hbj. destruct Hbj as [[[[E1 E2] E3] _] _].
+      apply Z.eqb_eq in E1. apply Z.eqb_eq in E2.
+      pose proof (w_code _ HW _ _ _ Hin0 (or_introl eq_refl)) as Hw. cbn in Hw. destruct Hw as (A&_&_).
+      unfold is_wire in E3. destruct (kind_of (r_f r)) eqn:Ek; [|discriminate].
+      rewrite (kind_of_response (r_f r)) in A by congruence. inversion A as [Hft].
+      assert (Hrk : rcv_key r = K0). { unfold rcv_key. rewrite <- Hft, E1, E2. reflexivity. }
+      rewrite Hrk in *. exists it. split; [exact Hlk|]. split; [exact Hlive|]. split.
+      + cbn [touches_i gets_i]. rewrite Hrk. apply live_call_in; assumption.
+      + left. exists r, s. repeat split. exact Hrk.
+    - subst i j. exists it0. split; [exact Hlk|]. split; [exact Hlive|]. split.
+      + cbn [touches_i]. apply live_call_in; assumption.
+      + right. exists s, ec. split; reflexivity.
+  Qed.
+
+
+  (* a step that neither executes nor creates a blocked instruction of (k, id) *)
+  Lemma quiet_other : In (k, id) (seen st) ->
+    (forall th room i rest, l = LStep th room -> lookup tid_eqb th (threads st) = Some (i :: rest) ->
+       blocked k id i = false /\ (forall st1 pushed j, exec cf st i room = (st1, pushed) -> In j pushed -> blocked k id j = false)) ->
+    nb k id st' = nb k id st /\ wout k id st' = wout k id st.
+  Proof.
+    intros Hseen Hq. split.
+    - destruct (lstep_or_not l) as [(th&room&Hl)|Hn].
+      + destruct (lstep_inv th room Hl) as (i&rest&st1&pushed&Elk&E&Hst'). destruct (Hq _ _ _ _ Hl Elk) as [Hbi Hp].
+        rewrite Hst', (nb_LStep cf k id _ _ _ _ _ _ _ HI Elk E). unfold bl at 1. rewrite Hbi. cbn.
+        rewrite (csum_zero_none k id pushed) by (intros j Hj; eapply Hp; [exact E|exact Hj]). lia.
+      + rewrite (nb_other cf k id _ _ _ HI Hs Hn). rewrite (arrive_delta_zero cf k id st l Hfresh Hseen). lia.
+    - destruct (step_wout cf k id _ _ _ Hs) as [Hw|(th&room&i&rest&Hl&Elk&Hb&_)]; [exact Hw|].
+      destruct (Hq _ _ _ _ Hl Elk) as [Hbi _]. congruence.
+  Qed.
+
+  (* the table entry of K0, when it is not live, stays not live (no admission of (k, id) is pending) *)
+  Lemma notlive_mono : k0_notlive k id st ->
+    (forall th code i f, In (th, code) (threads st) -> In i code -> adm_kf i = Some (k, f) -> f_id f <> id) ->
+    k0_notlive k id st'.
+  Proof.
+    intros Hn Hnoadm it Hl. apply (lookup_in key_eqb key_eqb_ok) in Hl.
+    destruct (step_items _ _ _ _ _ _ Hs Hl) as [(it0&Hi0&Hsame)|[(th&room&rest&k1&f&e&c&d&_&_&Ht&_)|(th&room&rest&k1&f&e&c&d&did&_&Elk&Ht&_)]].
+    - destruct Hsame as (_&_&_&_&_&Hm). apply Hm. apply Hn. apply (in_lookup key_eqb key_eqb_ok); [apply (inv_items_nd _ HI)|exact Hi0].
+    - inversion Ht.
+    - exfalso. inversion Ht. subst k1. eapply (Hnoadm th _ (IAddOrig k f e c d did) f); [eapply (lookup_in tid_eqb tid_eqb_ok); exact Elk|left; reflexivity|reflexivity|symmetry; assumption].
+  Qed.
+
+  (* held calls survive the step for goroutines that still have code *)
+  Lemma held_keep : forall th c code, In (th, c) h -> lookup tid_eqb th (threads st') = Some code -> In (th, c) h'.
+  Proof.
+    intros th c code Hh Hl. unfold h'. destruct (actor l) as [a|] eqn:Ea.
+    - destruct (eqb_dec tid_eqb tid_eqb_ok th a) as [->|Hne].
+      + eapply held_next_self; [exact Ea|exact Hl|left; exact Hh].
+      + apply held_next_other; [exact Hh|congruence].
+    - apply held_next_other; [exact Hh|congruence].
+  Qed.
+
+
+  Lemma k0_seen : forall it0, klookup K0 (items st) = Some it0 -> In (k, id) (seen st).
+  Proof.
+    intros it0 Hl. destruct (inv_keys _ HI K0) as [[_ Hsn]|[Hd _]].
+    - left. apply (lookup_in key_eqb key_eqb_ok) in Hl. apply (in_map fst) in Hl. exact Hl.
+    - exact Hsn.
+    - cbn in Hd. discriminate.
+  Qed.
+
+  Lemma seen_mono : In (k, id) (seen st) -> In (k, id) (seen st').
+  Proof.
+    intro H. destruct (step_seen cf _ _ _ Hs) as [Heq|(k0&f&e&_&Heq&_)]; rewrite Heq; [exact H|right; exact H].
+  Qed.
+
+  (* while a goroutine th holds the call of the live K0, no other goroutine creates a blocked
+     instruction of (k, id) or changes K0 *)
+  Lemma other_quiet : forall it0 th th2 room i2 rest, klookup K0 (items st) = Some it0 -> it_tomb it0 = false -> In (th, it_call it0) h ->
+    l = LStep th2 room -> th2 <> th -> lookup tid_eqb th2 (threads st) = Some (i2 :: rest) -> blocked k id i2 = false ->
+    (forall st1 pushed j, exec cf st i2 room = (st1, pushed) -> In j pushed -> blocked k id j = false) /\
+    klookup K0 (items st') = Some it0.
+  Proof.
+    intros it0 th th2 room i2 rest Hl0 Hlive Hh Hl Hne Elk Hbi. split.
+    - intros st1 pushed j E Hj. destruct (blocked k id j) eqn:Hbj; [|reflexivity]. exfalso.
+      destruct (new_blocked_touch _ _ _ _ _ _ _ Hl Elk E Hbi Hj Hbj) as (it1&Hl1&_&Ht&_).
+      rewrite Hl0 in Hl1. inversion Hl1. subst it1. rewrite Hl in Hno.
+      apply Hne. symmetry. eapply touch_excl; eassumption.
+    - destruct (step_items_keep _ _ _ _ _ _ HI Hs Hl0 Hlive) as [Hk|(th3&room3&rest3&i3&Hl3&Elk3&Hi3)]; [exact Hk|]. exfalso.
+      rewrite Hl in Hl3. inversion Hl3. subst th3 room3. rewrite Elk in Elk3. inversion Elk3. subst i3 rest3.
+      rewrite Hl in Hno. apply Hne. symmetry. eapply (touch_excl st h th2 room i2 rest (it_call it0)); try eassumption.
+      destruct Hi3 as [[s Hi3]|Hi3]; rewrite Hi3; cbn [touches_i]; apply live_call_in; assumption.
+  Qed.
+
+
+  Lemma wire_of_nil : forall d did log, (forall f, In (d, f) log -> kind_of f <> None -> f_id f <> did) -> wire_of d did log = [].
+  Proof.
+    intros d did log. induction log as [|[d0 f0] r IH]; intro H; [reflexivity|]. rewrite wire_of_cons.
+    rewrite IH by (intros f Hin; apply H; right; exact Hin). cbn [app].
+    destruct ((d0 =? d) && (f_id f0 =? did)) eqn:E; [|reflexivity]. apply andb_true_iff in E. destruct E as [E1 E2].
+    apply Z.eqb_eq in E1. apply Z.eqb_eq in E2. subst d0. destruct (kind_of f0) eqn:Ek; [|reflexivity].
+    exfalso. eapply (H f0); [left; reflexivity|congruence|exact E2].
+  Qed.
+
+  (* a response frame of (d, did) is only in flight for an id the relay has allocated on d *)
+  Lemma pre_alloc : forall d did th0 code0 j x, In (th0, code0) (threads st) -> In j code0 -> pre_kind d did j = Some x ->
+    did < c_nextid (getc (conns st) d).
+  Proof.
+    intros d did th0 code0 j x Hin Hj Hp.
+    assert (Hfl : forall own tk ti c, flight j = Some (own, tk, ti, c) -> own = (d, 1, did) -> did < c_nextid (getc (conns st) d)).
+    { intros own tk ti c Hfl Ho. destruct (f_own _ _ HF _ _ _ _ _ _ _ Hin Hj Hfl) as (it1&Hl1&_). subst own.
+      destruct (inv_keys _ HI (d, 1, did)) as [[Hz _]|[_ Hlt]].
+      - left. apply (lookup_in key_eqb key_eqb_ok) in Hl1. apply (in_map fst) in Hl1. exact Hl1.
+      - cbn in Hz. discriminate.
+      - exact Hlt. }
+    pose proof (f_thr _ _ HF _ _ _ Hin Hj) as Hthr. pose proof (w_code _ HW _ _ _ Hin Hj) as Hw.
+    destruct j; cbn in Hp; try discriminate.
+    - destruct ((k0 =? d) && (f_id f =? did)) eqn:E; [|discriminate]. apply andb_true_iff in E. destruct E as [E1 E2].
+      apply Z.eqb_eq in E1. apply Z.eqb_eq in E2. subst k0 did. eapply (f_ncget _ _ HF); [exact Hin|exact Hj|congruence].
+    - destruct g as [[it s]|]; [|discriminate]. destruct ((k0 =? d) && (f_id f =? did) && negb (it_tomb it)) eqn:E; [|discriminate].
+      rewrite !andb_true_iff in E. destruct E as [[E1 E2] E3]. apply Z.eqb_eq in E1. apply Z.eqb_eq in E2. subst k0 did.
+      cbn in Hw. destruct Hw as [Hft _]. rewrite (kind_of_response f) in Hft by congruence. inversion Hft. subst ft.
+      cbn in Hthr. destruct Hthr as [_ Hown].
+      eapply (Hfl own); [|exact Hown]. cbn. rewrite E3. reflexivity.
+    - destruct (key_eqb (r_own r) (d, 1, did) && (r_ft r =? c_responseFrame)) eqn:E; [|discriminate].
+      apply andb_true_iff in E. destruct E as [E1 E2]. apply key_eqb_ok in E1.
+      eapply (Hfl (r_own r)); [|exact E1]. cbn. rewrite E2. reflexivity.
+  Qed.
+
+  (* --- window: the terminal frame is out, the reader is about to delete K0 *)
+  Lemma trans_window : forall it0 th R, klookup K0 (items st) = Some it0 -> it_tomb it0 = false -> qout k id st = Some WEnd ->
+    nb k id st = 0 -> lookup tid_eqb th (threads st) = Some (IDelete K0 :: R) -> In (th, it_call it0) h -> phase k id st' h' arr'.
+  Proof.
+    intros it0 th R Hl0 Hlive Hq Hnb Elkw Hh.
+    pose proof (k0_seen _ Hl0) as Hseen.
+    destruct (lstep_or_not l) as [(th2&room&Hl)|Hn].
+    - destruct (lstep_inv th2 room Hl) as (i2&rest&st1&pushed&Elk&E&Hst').
+      assert (Hbi : blocked k id i2 = false).
+      { eapply (nb_zero_none k id st); [exact Hnb|eapply (lookup_in tid_eqb tid_eqb_ok); exact Elk|left; reflexivity]. }
+      destruct (eqb_dec tid_eqb tid_eqb_ok th2 th) as [->|Hne].
+      + (* the reader deletes K0 *)
+        rewrite Elkw in Elk. inversion Elk. subst i2 rest.
+        pose proof E as E0. cbn [exec] in E0. destruct (items_delete st K0) as [st2 g] eqn:Ed.
+        destruct (items_delete_spec _ _ _ _ Ed) as (_&_&_&_&_&_&_&Hd). rewrite Hl0 in Hd. destruct Hd as [Hg Hit]. subst g. rewrite Hlive in E0. cbn [negb] in E0.
+        inversion E0. subst st1 pushed. clear E0.
+        assert (Hnl : k0_notlive k id st').
+        { intros it Hl1. rewrite Hst' in Hl1. cbn [set_thread set_threads items] in Hl1. rewrite Hit, (lookup_remove_eq key_eqb key_eqb_ok) in Hl1. discriminate. }
+        assert (Hnb' : nb k id st' = 0).
+        { rewrite Hst', (nb_LStep cf k id _ _ _ _ _ _ _ HI Elkw E). unfold bl at 1. rewrite Hbi. destruct (it_orig it0); cbn; lia. }
+        apply PhSettled; [apply settled_of; [apply seen_mono; exact Hseen|exact Hnl|exact Hnb']|].
+        exists WEnd. rewrite <- Hq. apply qout_same.
+        destruct (step_wout cf k id _ _ _ Hs) as [Hw|(th3&room3&i3&rest3&Hl3&Elk3&Hb3&_)]; [exact Hw|].
+        rewrite Hl in Hl3. inversion Hl3. subst th3 room3. rewrite Elkw in Elk3. inversion Elk3. subst i3. discriminate.
+      + destruct (other_quiet it0 th th2 room i2 rest Hl0 Hlive Hh Hl Hne Elk Hbi) as [Hpq Hk0].
+        destruct (quiet_other Hseen) as [Hnb' Hw].
+        { intros th3 room3 i3 rest3 Hl3 Elk3. rewrite Hl in Hl3. inversion Hl3. subst th3 room3. rewrite Elk in Elk3. inversion Elk3. subst i3 rest3.
+          split; [exact Hbi|exact Hpq]. }
+        assert (Elkw' : lookup tid_eqb th (threads st') = Some (IDelete K0 :: R)).
+        { eapply step_lookup_other; [exact Hs| |exact Elkw]. intros room3 Heq. rewrite Hl in Heq. inversion Heq. congruence. }
+        eapply (PhWindow k id st' h' arr' it0 th R); try assumption.
+        * rewrite (qout_same k id _ _ Hw). exact Hq.
+        * lia.
+        * eapply held_keep; eassumption.
+    - destruct (quiet_other Hseen) as [Hnb' Hw].
+      { intros th3 room3 i3 rest3 Hl3. exfalso. eapply Hn. exact Hl3. }
+      assert (Hk0 : klookup K0 (items st') = Some it0).
+      { destruct (step_items_keep _ _ _ _ _ _ HI Hs Hl0 Hlive) as [Hk|(th3&room3&rest3&i3&Hl3&_)]; [exact Hk|]. exfalso. eapply Hn. exact Hl3. }
+      assert (Elkw' : lookup tid_eqb th (threads st') = Some (IDelete K0 :: R)).
+      { eapply step_lookup_other; [exact Hs| |exact Elkw]. intros room3 Heq. eapply Hn. exact Heq. }
+      eapply (PhWindow k id st' h' arr' it0 th R); try assumption.
+      * rewrite (qout_same k id _ _ Hw). exact Hq.
+      * lia.
+      * eapply held_keep; eassumption.
+  Qed.
+
+
+  (* --- an error frame for (k, id) is waiting to be enqueued *)
+  Lemma trans_err : forall th code ec q, In (th, code) (threads st) -> In (ISendErr k id ec) code -> nb k id st = 1 ->
+    k0_notlive k id st -> qout k id st = Some q -> q <> WEnd -> phase k id st' h' arr'.
+  Proof.
+    intros th code ec q Hin Hj Hnb Hnl Hq Hqe.
+    assert (Hbj : blocked k id (ISendErr k id ec) = true) by (cbn; rewrite !Z.eqb_refl; reflexivity).
+    pose proof (w_code _ HW _ _ _ Hin Hj) as Hseen. cbn in Hseen.
+    assert (Hnb1 : nb k id st <= 1) by lia.
+    assert (Hnoadm : forall th0 code0 i f, In (th0, code0) (threads st) -> In i code0 -> adm_kf i = Some (k, f) -> f_id f <> id).
+    { intros th0 code0 i f Hin0 Hi Ha Hid.
+      assert (Hbi : blocked k id i = true).
+      { destruct i; cbn in Ha; try discriminate; inversion Ha; subst; cbn; rewrite !Z.eqb_refl; reflexivity. }
+      destruct (unique_blocked k id st _ _ _ _ _ _ (inv_threads_nd _ HI) Hnb1 Hin0 Hi Hbi Hin Hj Hbj) as [_ Heq]. subst i. discriminate. }
+    pose proof (notlive_mono Hnl Hnoadm) as Hnl'.
+    assert (Hnotouch : forall th2 room i2 rest st1 pushed j, l = LStep th2 room -> lookup tid_eqb th2 (threads st) = Some (i2 :: rest) ->
+              exec cf st i2 room = (st1, pushed) -> blocked k id i2 = false -> In j pushed -> blocked k id j = false).
+    { intros th2 room i2 rest st1 pushed j Hl Elk E Hbi Hjp. destruct (blocked k id j) eqn:Hb; [|reflexivity]. exfalso.
+      destruct (new_blocked_touch _ _ _ _ _ _ _ Hl Elk E Hbi Hjp Hb) as (it1&Hl1&Hlive1&_). rewrite (Hnl _ Hl1) in Hlive1. discriminate. }
+    assert (Hstay : (forall th2 room i2 rest, l = LStep th2 room -> lookup tid_eqb th2 (threads st) = Some (i2 :: rest) -> blocked k id i2 = false) ->
+              phase k id st' h' arr').
+    { intro Hq2. destruct (quiet_other Hseen) as [Hnb' Hw].
+      { intros th2 room i2 rest Hl Elk. split; [eapply Hq2; eassumption|]. intros st1 pushed j E Hjp. eapply Hnotouch; try eassumption. eapply Hq2; eassumption. }
+      destruct (step_code_keep _ _ _ _ _ _ _ HI Hs Hin Hj) as [(code'&Hin'&Hj')|(room&rest&Hl&Hc)].
+      - eapply (PhErr k id st' h' arr' th code' ec q); try eassumption; [lia|]. rewrite (qout_same k id _ _ Hw). exact Hq.
+      - exfalso. subst code. pose proof (in_lookup tid_eqb tid_eqb_ok _ _ _ (inv_threads_nd _ HI) Hin) as Elk.
+        rewrite (Hq2 _ _ _ _ Hl Elk) in Hbj. discriminate. }
+    destruct (lstep_or_not l) as [(th2&room&Hl)|Hn]; [|apply Hstay; intros th2 room i2 rest Hl; exfalso; eapply Hn; exact Hl].
+    destruct (lstep_inv th2 room Hl) as (i2&rest&st1&pushed&Elk&E&Hst').
+    destruct (blocked k id i2) eqn:Hbi.
+    - (* the error frame is handed to the connection (or dropped: connection closed / buffer full) *)
+      pose proof (lookup_in tid_eqb tid_eqb_ok _ _ _ Elk) as Hin2.
+      destruct (unique_blocked k id st _ _ _ _ _ _ (inv_threads_nd _ HI) Hnb1 Hin2 (or_introl eq_refl) Hbi Hin Hj Hbj) as [Hth Hi]. subst th2 i2.
+      assert (Hp : pushed = []).
+      { cbn [exec] in E. destruct ((c_state (get_conn st k) =? c_connectionClosed) || negb room); inversion E; reflexivity. }
+      assert (Hnb' : nb k id st' = 0).
+      { rewrite Hst', (nb_LStep cf k id _ _ _ _ _ _ _ HI Elk E), Hp. unfold bl. rewrite Hbj. cbn. lia. }
+      apply PhSettled; [apply settled_of; [apply seen_mono; exact Hseen|exact Hnl'|exact Hnb']|].
+      destruct (step_wout cf k id _ _ _ Hs) as [Hw|(th3&room3&i3&rest3&Hl3&Elk3&Hb3&[(ec3&Hi3&Hw)|(r&rk&x&Hi3&_)])].
+      + exists q. rewrite (qout_same k id _ _ Hw). exact Hq.
+      + exists WEnd. rewrite (qout_snoc k id _ _ _ _ Hq Hw). destruct q; try reflexivity. contradiction.
+      + exfalso. rewrite Hl in Hl3. inversion Hl3. subst th3. rewrite Elk in Elk3. inversion Elk3. subst i3. discriminate.
+    - apply Hstay. intros th3 room3 i3 rest3 Hl3 Elk3. rewrite Hl in Hl3. inversion Hl3. subst th3 room3. rewrite Elk in Elk3. inversion Elk3. subst i3. exact Hbi.
+  Qed.
+
+
+  Lemma arr'_lstep : forall th room, l = LStep th room -> arr' = arr.
+  Proof. intros th room Hl. unfold arr'. rewrite Hl. reflexivity. Qed.
+
+  (* --- the request is being admitted *)
+  Lemma trans_adm : forall th code i f, In (th, code) (threads st) -> In i code -> adm_kf i = Some (k, f) -> f_id f = id ->
+    nb k id st = 1 -> wout k id st = [] ->
+    (forall e c d did, i = IAddOrig k f e c d did -> dead st d did \/ synced st arr W0 d did) -> phase k id st' h' arr'.
+  Proof.
+    intros th code i f Hin Hi Ha Hid Hnb Hw0 Hps.
+    destruct (inv_code _ HI _ _ Hin) as [Hfo Hsing]. rewrite Forall_forall in Hfo.
+    destruct (iok_adm _ _ _ _ _ _ _ Ha (Hfo _ Hi)) as [Hthk (Hseen&Hfree&_)]. rewrite Hid in Hseen, Hfree.
+    assert (Hcode : code = [i]) by (apply Hsing; [exact Hi|unfold is_adm; rewrite Ha; reflexivity]). subst code.
+    assert (Hbi : blocked k id i = true).
+    { destruct i; cbn in Ha; try discriminate; inversion Ha; subst; cbn; rewrite !Z.eqb_refl; reflexivity. }
+    assert (Hnb1 : nb k id st <= 1) by lia.
+    pose proof (in_lookup tid_eqb tid_eqb_ok _ _ _ (inv_threads_nd _ HI) Hin) as Elki.
+    assert (Hq0 : qout k id st = Some W0) by (unfold qout; rewrite Hw0; reflexivity).
+    assert (Hnotouch : forall th2 room i2 rest st1 pushed j, l = LStep th2 room -> lookup tid_eqb th2 (threads st) = Some (i2 :: rest) ->
+              exec cf st i2 room = (st1, pushed) -> blocked k id i2 = false -> In j pushed -> blocked k id j = false).
+    { intros th2 room i2 rest st1 pushed j Hl Elk E Hb2 Hjp. destruct (blocked k id j) eqn:Hb; [|reflexivity]. exfalso.
+      destruct (new_blocked_touch _ _ _ _ _ _ _ Hl Elk E Hb2 Hjp Hb) as (it1&Hl1&_). congruence. }
+    (* the synchronisation with the destination's frames survives any step that is not the admission itself *)
+    assert (Hsync : forall e c d did, i = IAddOrig k f e c d did ->
+              (forall th2 room r rest, l = LStep th2 room -> lookup tid_eqb th2 (threads st) = Some (IRcvGet r :: rest) -> pre_kind d did (IRcvGet r) = None) /\
+              did < c_nextid (getc (conns st) d)).
+    { intros e c d did Hieq. subst i. destruct (tp_addorig _ HP _ _ _ _ _ _ _ _ Hin (or_introl eq_refl)) as [Hlt Hao]. split; [|exact Hlt].
+      intros th2 room r rest Hl Elk. destruct (pre_kind d did (IRcvGet r)) as [x|] eqn:Ep; [|reflexivity]. exfalso.
+      cbn in Ep. destruct (key_eqb (r_own r) (d, 1, did) && (r_ft r =? c_responseFrame)) eqn:Eb; [|discriminate].
+      apply andb_true_iff in Eb. destruct Eb as [E1 E2]. apply key_eqb_ok in E1.
+      pose proof (lookup_in tid_eqb tid_eqb_ok _ _ _ Elk) as Hin2.
+      assert (Hfl : flight (IRcvGet r) = Some (r_own r, r_d r, f_id (r_f r), r_call r)) by (cbn; rewrite E2; reflexivity).
+      destruct (f_own _ _ HF _ _ _ _ _ _ _ Hin2 (or_introl eq_refl) Hfl) as (it1&Hl1&_&_&Hd1&Hr1).
+      rewrite E1 in Hl1. destruct (Hao _ Hl1) as (A&B&_).
+      eapply (f_noadm _ _ HF _ _ _ _ _ _ _ Hin2 (or_introl eq_refl) Hfl th [IAddOrig k f e c d did] (IAddOrig k f e c d did) f); [exact Hin|left; reflexivity| |congruence].
+      cbn. rewrite <- Hd1, A. reflexivity. }
+    assert (Hstay : (forall th2 room i2 rest, l = LStep th2 room -> lookup tid_eqb th2 (threads st) = Some (i2 :: rest) -> blocked k id i2 = false) ->
+              phase k id st' h' arr').
+    { intro Hq2. destruct (quiet_other Hseen) as [Hnb' Hw].
+      { intros th2 room i2 rest Hl Elk. split; [eapply Hq2; eassumption|]. intros st1 pushed j E Hjp. eapply Hnotouch; try eassumption. eapply Hq2; eassumption. }
+      destruct (step_code_keep _ _ _ _ _ _ _ HI Hs Hin Hi) as [(code'&Hin'&Hi')|(room&rest&Hl&Hc)].
+      - eapply (PhAdm k id st' h' arr' th code' i f); try eassumption; [lia|rewrite Hw; exact Hw0|].
+        intros e c d did Hieq. destruct (Hsync _ _ _ _ Hieq) as [Hnoc Hlt].
+        eapply step_synced; try eassumption. eapply Hps. exact Hieq.
+      - exfalso. rewrite (Hq2 _ _ _ _ Hl Elki) in Hbi. discriminate. }
+    destruct (lstep_or_not l) as [(th2&room&Hl)|Hn]; [|apply Hstay; intros th2 room i2 rest Hl; exfalso; eapply Hn; exact Hl].
+    destruct (lstep_inv th2 room Hl) as (i2&rest&st1&pushed&Elk&E&Hst').
+    destruct (blocked k id i2) eqn:Hb2; [|apply Hstay; intros th3 room3 i3 rest3 Hl3 Elk3; rewrite Hl in Hl3; inversion Hl3; subst th3 room3; rewrite Elk in Elk3; inversion Elk3; subst i3; exact Hb2].
+    (* the admission goroutine steps *)
+    pose proof (lookup_in tid_eqb tid_eqb_ok _ _ _ Elk) as Hin2.
+    destruct (unique_blocked k id st _ _ _ _ _ _ (inv_threads_nd _ HI) Hnb1 Hin2 (or_introl eq_refl) Hb2 Hin (or_introl eq_refl) Hbi) as [Hth Hi2]. subst th2 i2.
+    rewrite Elki in Elk. inversion Elk. subst rest.
+    assert (Hw : wout k id st' = wout k id st).
+    { destruct (step_wout cf k id _ _ _ Hs) as [Hw|(th3&room3&i3&rest3&Hl3&Elk3&_&[(ec3&Hi3&_)|(r&rk&x&Hi3&_)])]; [exact Hw| |];
+        rewrite Hl in Hl3; inversion Hl3; subst th3; rewrite Elki in Elk3; inversion Elk3; subst i3; subst i; discriminate. }
+    assert (Hnb' : nb k id st' = csum (bl k id) pushed).
+    { rewrite Hst', (nb_LStep cf k id _ _ _ _ _ _ _ HI Elki E). unfold bl at 1. rewrite Hbi. cbn. lia. }
+    assert (Hth' : In (th, pushed ++ []) (threads st') \/ pushed = []).
+    { destruct pushed as [|a p]; [right; reflexivity|left]. rewrite Hst'. apply in_set_thread_self. discriminate. }
+    pose proof (pushed_bl_count k id _ _ _ _ _ _ E) as Hle.
+    destruct (Z_lt_le_dec 0 (csum (bl k id) pushed)) as [Hpos|Hzero].
+    - destruct (csum_pos_in k id _ Hpos) as (j&Hj&Hbj).
+      destruct Hth' as [Hth'|Hnil]; [|subst pushed; contradiction].
+      destruct (adm_pushes cf k id _ _ _ _ _ _ _ Ha E Hj Hbj) as [Haj|(ec&Hjeq)].
+      + eapply (PhAdm k id st' h' arr' th (pushed ++ []) j f); try eassumption; [apply in_or_app; left; exact Hj|lia|rewrite Hw; exact Hw0|].
+        intros e c d did Hjeq. destruct (pushed_adm _ _ _ _ _ _ _ _ _ E Hj Haj) as (_&Hao&_). destruct (Hao _ _ _ _ _ _ Hjeq) as [Hieq Hdid].
+        right. rewrite (arr'_lstep _ _ Hl). rewrite get_conn_getc in Hdid.
+        assert (Hnone : forall th0 code0 j0, In (th0, code0) (threads st') -> In j0 code0 -> pre_kind d did j0 = None).
+        { intros th0 code0 j0 Hin0 Hj0. destruct (pre_kind d did j0) as [x|] eqn:Ep; [|reflexivity]. exfalso.
+          destruct (step_code _ _ _ _ _ _ _ Hs Hin0 Hj0) as [(code1&A&B&_)|[(th3&room3&i3&rest3&st3&pushed3&Hl3&_&Elk3&E3&Hp3)|[(k1&f1&e1&Hl3&_)|(tm&Hl3&_)]]];
+            try (rewrite Hl in Hl3; discriminate).
+          - pose proof (pre_alloc _ _ _ _ _ _ A B Ep). lia.
+          - rewrite Hl in Hl3. inversion Hl3. subst th3 room3. rewrite Elki in Elk3. inversion Elk3. subst i3 rest3.
+            pose proof (pushed_pre cf d did _ _ _ _ _ _ _ _ E3 (f_thr _ _ HF _ _ _ Hin (or_introl eq_refl)) Hp3 Ep) as Hpi.
+            subst i. discriminate. }
+        split; [intros th0 code0 j0 x Hin0 Hj0 Hp; rewrite (Hnone _ _ _ Hin0 Hj0) in Hp; discriminate|].
+        intros _. unfold qarr. rewrite wire_of_nil; [reflexivity|]. intros f0 Hf0 Hk0 Heq. pose proof (Harr _ _ Hf0 Hk0). lia.
+      + subst j. rewrite Hid in Hj.
+        assert (Hnl' : k0_notlive k id st').
+        { intros it Hl1. apply (lookup_in key_eqb key_eqb_ok) in Hl1.
+          destruct (step_items _ _ _ _ _ _ Hs Hl1) as [(it0&Hi0&_)|[(th3&room3&rest3&k1&f1&e1&c1&d1&_&_&Ht&_)|(th3&room3&rest3&k1&f1&e1&c1&d1&did1&Hl3&Elk3&_)]].
+          - apply (in_lookup key_eqb key_eqb_ok) in Hi0; [congruence|apply (inv_items_nd _ HI)].
+          - inversion Ht.
+          - exfalso. rewrite Hl in Hl3. inversion Hl3. subst th3. rewrite Elki in Elk3. inversion Elk3. subst i.
+            cbn [exec] in E. unfold timer_new in E. cbn [fst snd] in E. inversion E. subst pushed.
+            destruct (e_mode e1 <? 0); in_cases Hj; discriminate. }
+        eapply (PhErr k id st' h' arr' th (pushed ++ []) ec W0); try eassumption; [apply in_or_app; left; exact Hj|lia|rewrite (qout_same k id _ _ Hw); exact Hq0|discriminate].
+    - assert (Hnb0 : nb k id st' = 0) by (pose proof (csum_bl_nonneg k id pushed); lia).
+      destruct (klookup K0 (items st')) as [it0|] eqn:Hl0'.
+      + (* addRelayItem of the originating item *)
+        pose proof (lookup_in key_eqb key_eqb_ok _ _ _ Hl0') as Hin0'.
+        destruct (step_items _ _ _ _ _ _ Hs Hin0') as [(it1&Hi1&_)|[(th3&room3&rest3&k1&f1&e1&c1&d1&_&_&Ht&_)|(th3&room3&rest3&k1&f1&e1&c1&d1&did1&Hl3&Elk3&Ht&Hc1&Hd1&Hr1&Hlive1)]].
+        * apply (in_lookup key_eqb key_eqb_ok) in Hi1; [congruence|apply (inv_items_nd _ HI)].
+        * inversion Ht.
+        * rewrite Hl in Hl3. inversion Hl3. subst th3 room3. rewrite Elki in Elk3. inversion Elk3. subst i.
+          cbn in Ha. inversion Ha. subst k1 f1.
+          destruct (Hsync _ _ _ _ eq_refl) as [Hnoc Hlt].
+          eapply (PhLive k id st' h' arr' it0 W0); try assumption; [rewrite (qout_same k id _ _ Hw); exact Hq0|discriminate|].
+          rewrite Hd1, Hr1.
+          destruct (step_synced cf st h l st' arr W0 d1 did1 HA Hs Hlt Hok Hnoc (Hps _ _ _ _ eq_refl)) as [Hd|Hsy]; [left; exact Hd|right; right; exact Hsy].
+      + apply PhSettled; [apply settled_of; [apply seen_mono; exact Hseen|intros it Hx; rewrite Hl0' in Hx; discriminate|exact Hnb0]|].
+        exists W0. rewrite (qout_same k id _ _ Hw). exact Hq0.
+  Qed.
+
+  (* --- unseen *)
+  Lemma trans_unseen : ~ In (k, id) (seen st) -> phase k id st' h' arr'.
+  Proof.
+    intro Hu. destruct (step_seen cf _ _ _ Hs) as [Hsame|(k0&f&e&Hl&Hsn&Hmt)].
+    - apply PhUnseen. rewrite Hsame. exact Hu.
+    - destruct (Z.eq_dec k0 k) as [->|Hnk]; [destruct (Z.eq_dec (f_id f) id) as [Hid|Hnid]|].
+      + (* the request is read *)
+        pose proof Hs as H0. rewrite Hl in H0. unfold step in H0. destruct (negb (panicked st =? 0)); [discriminate|].
+        destruct (lookup tid_eqb (TR k) (threads st)) eqn:Eidle; [discriminate|].
+        destruct (relayRoute (f_mt f) (cf_cancel cf) =? 1) eqn:Er; [|inversion H0; subst st'; rewrite Hsn in Hu; exfalso; apply (f_equal (@length _)) in Hsn; cbn in Hsn; lia].
+        rewrite Hmt in H0.
+        assert (Hst' : st' = set_thread (set_seen st ((k, f_id f) :: seen st)) (TR k) [IStart k f e]) by (inversion H0; reflexivity). clear H0.
+        apply (PhAdm k id st' h' arr' (TR k) [IStart k f e] (IStart k f e) f).
+        * rewrite Hst'. apply in_set_thread_self. discriminate.
+        * left. reflexivity.
+        * reflexivity.
+        * exact Hid.
+        * rewrite (nb_other cf k id _ _ _ HI Hs) by (intros; subst l; discriminate). rewrite Hl, Er, Hmt. cbn [andb].
+          rewrite (none_nb_zero k id st) by (intros; eapply unseen_unblocked; eassumption).
+          unfold bl. cbn. rewrite Z.eqb_refl, Hid, Z.eqb_refl. reflexivity.
+        * destruct (step_wout cf k id _ _ _ Hs) as [Hw|(th&room&_&_&Hl2&_)]; [|rewrite Hl in Hl2; discriminate].
+          rewrite Hw. apply unseen_wout; assumption.
+        * intros; discriminate.
+      + apply PhUnseen. rewrite Hsn. intros [Hx|Hx]; [inversion Hx; contradiction|contradiction].
+      + apply PhUnseen. rewrite Hsn. intros [Hx|Hx]; [inversion Hx; contradiction|contradiction].
+  Qed.
+
+  (* --- settled *)
+  Lemma trans_settled : settled st k id -> (exists q, qout k id st = Some q) -> phase k id st' h' arr'.
+  Proof.
+    intros Hset [q Hq]. destruct (step_settled _ _ _ _ _ _ HI HW Hfresh Hset Hs) as [Hset' Hw].
+    apply PhSettled; [exact Hset'|]. exists q. unfold qout, wout in *. rewrite Hw. exact Hq.
+  Qed.
+End Trans.
